@@ -257,6 +257,27 @@ theorem fit_only_if_placed (common : Inp) (groups : List (Lib × List Gpu)) (v :
       (0 ≤ common.numGPU → (e.layers : Int) = common.numGPU) :=
   predictFitLoop_true common groups 0 v h
 
+/-- **The clause as the property states it** ("declared to fit completely only if ALL of its layers
+    were placed"), under the guard that excludes a user limit below the model's layer count: for
+    `num_gpu < 0` (auto) or `num_gpu ≥ blocks+1`, a declared fit means some library group's estimate
+    places every one of the `blocks+1` layers.  Without the guard the clause is false of the model and
+    of the code (finding N1, witness `N1_fit_with_partial_offload`): `PredictServerFit` compares with
+    the user's `num_gpu`, not with the model's layer count. -/
+theorem fit_only_if_every_layer_placed_partial (common : Inp) (groups : List (Lib × List Gpu)) (v : Nat)
+    (hguard : common.numGPU < 0 ∨ ((common.blocks.length + 1 : Nat) : Int) ≤ common.numGPU)
+    (h : predictFit common groups = (true, v)) :
+    ∃ lib gpus, (lib, gpus) ∈ groups ∧
+      (estimate { common with lib := lib, gpus := gpus }).layers = common.blocks.length + 1 ∧
+      v = (estimate { common with lib := lib, gpus := gpus }).vram := by
+  obtain ⟨lib, gpus, hm, hh⟩ := fit_only_if_placed common groups v h
+  refine ⟨lib, gpus, hm, ?_, hh.1⟩
+  have hl := (layers_le { common with lib := lib, gpus := gpus }).1
+  simp only at hh hl
+  rcases hguard with hneg | hge
+  · exact hh.2.2.1 hneg
+  · have := hh.2.2.2 (by omega)
+    omega
+
 /-- with `num_gpu` beyond the model's layer count a complete fit is never declared -/
 theorem fit_never_when_numGPU_huge (common : Inp) (groups : List (Lib × List Gpu))
     (h : (common.blocks.length + 1 : Nat) < common.numGPU) :
@@ -359,6 +380,23 @@ theorem full_fit_places_all (commonOf : Nat → Inp) (np : Int) (dp : Nat) (spre
     obtain ⟨h1, h2⟩ := hm
     subst h1; subst h2
     exact hh.2
+
+/-- the scheduler-level form of `fit_only_if_every_layer_placed_partial`: under the same guard on the
+    options of the parallelism that is settled on, the list `pickBestFullFitByLibrary` returns holds
+    every one of the model's `blocks+1` layers -/
+theorem full_fit_places_every_layer_partial (commonOf : Nat → Inp) (np : Int) (dp : Nat) (spread : Bool)
+    (all L : List FGpu) (p : Nat) (h : pickFull commonOf np dp spread all = some (L, p))
+    (hguard : (commonOf p).numGPU < 0 ∨ (((commonOf p).blocks.length + 1 : Nat) : Int) ≤ (commonOf p).numGPU) :
+    (estimate { commonOf p with lib := headLib L, gpus := L.map (·.gpu) }).layers
+      = (commonOf p).blocks.length + 1 := by
+  have hff := (full_fit_places_all commonOf np dp spread all L p h).2.2.2.2.2
+  have hl := (layers_le { commonOf p with lib := headLib L, gpus := L.map (·.gpu) }).1
+  dsimp only at hff hl ⊢
+  obtain ⟨_, hauto, huser⟩ := hff
+  rcases hguard with hneg | hge
+  · exact hauto hneg
+  · have := huser (by omega)
+    omega
 
 /-- `pickBestPartialFitByLibrary` returns the whole inventory (≤ 1 library) or one ByLibrary group -/
 theorem pickPartial_is_group (common : Inp) (all : List FGpu) :
@@ -470,6 +508,149 @@ example :
     updateFree [⟨0, 0, 1000, 900⟩] [none] = [900] ∧
     updateFree [⟨0, 0, 1000, 900⟩, ⟨0, 0, 1000, 900⟩] [some [(0, 300)]] = [400, 400] := by decide
 
+/-! ### the scheduler's load path (server/sched.go `processPending`, GPU branch) -/
+
+/-- the estimator input `NewLlamaServer` forms for a load decision: the options of parallelism `p`
+    on the list `L` in the order it was handed over -/
+def loadInp (commonOf : Nat → Inp) (L : List FGpu) (p : Nat) : Inp :=
+  { commonOf p with lib := headLib L, gpus := L.map (·.gpu) }
+
+theorem withFree_fields (g : IGpu) (fr : Nat) :
+    (g.withFree fr).f.key = g.f.key ∧ (g.withFree fr).f.idk = g.f.idk ∧ (g.withFree fr).f.lib = g.f.lib ∧
+    (g.withFree fr).f.gpu.minimum = g.f.gpu.minimum ∧ (g.withFree fr).f.gpu.free = fr ∧
+    (g.withFree fr).lkey = g.lkey ∧ (g.withFree fr).total = g.total := by
+  simp [IGpu.withFree]
+
+/-- **Soundness of the load decision** (the `i ↦ j` hypothesis of `sched_alloc_le_reported`
+    discharged on the model of the glue).  If `processPending` decides to load on `L` with parallelism
+    `p`: (1) with other models loaded this is a *full* fit; (2) a full fit places every requested layer
+    on `L` in that order; (3) every GPU of `L` is a GPU of the reported inventory (same library key, ID,
+    minimum memory) whose free figure was not raised, and — with other models loaded — it survived the
+    loading filter and, whenever the summed prediction does not exceed the total, free + predicted ≤ total. -/
+theorem load_sound (commonOf : Nat → Inp) (np : Int) (dp : Nat) (spread : Bool)
+    (inv : List IGpu) (runners : List LRunner) (full : Bool) (L : List FGpu) (p : Nat)
+    (h : loadDecision commonOf np dp spread inv runners = .load full L p) :
+    (runners ≠ [] → full = true) ∧
+    (full = true → 0 < (estimate (loadInp commonOf L p)).layers ∧
+      ((commonOf p).numGPU < 0 → (estimate (loadInp commonOf L p)).layers = (commonOf p).blocks.length + 1) ∧
+      (0 ≤ (commonOf p).numGPU → ((estimate (loadInp commonOf L p)).layers : Int) = (commonOf p).numGPU)) ∧
+    (∀ m ∈ L, ∃ g ∈ inv, m.key = g.f.key ∧ m.idk = g.f.idk ∧ m.lib = g.f.lib ∧
+      m.gpu.minimum = g.f.gpu.minimum ∧ m.gpu.free ≤ g.f.gpu.free ∧
+      (runners ≠ [] → g ∈ filterLoading runners inv ∧
+        (loadPred inv runners g ≤ g.total → m.gpu.free + loadPred inv runners g ≤ g.total))) := by
+  unfold loadDecision at h
+  by_cases hemp : runners.isEmpty = true
+  · have hnil : runners = [] := List.isEmpty_iff.mp hemp
+    simp only [hemp, ↓reduceIte] at h
+    have hmemInv : ∀ m ∈ inv.map (·.f), ∃ g ∈ inv, m.key = g.f.key ∧ m.idk = g.f.idk ∧ m.lib = g.f.lib ∧
+        m.gpu.minimum = g.f.gpu.minimum ∧ m.gpu.free ≤ g.f.gpu.free ∧
+        (runners ≠ [] → g ∈ filterLoading runners inv ∧
+          (loadPred inv runners g ≤ g.total → m.gpu.free + loadPred inv runners g ≤ g.total)) := by
+      intro m hm
+      obtain ⟨g, hg, rfl⟩ := List.mem_map.mp hm
+      exact ⟨g, hg, rfl, rfl, rfl, rfl, Nat.le_refl _, fun hne => absurd hnil hne⟩
+    cases hpf : pickFull commonOf np dp spread (inv.map (·.f)) with
+    | some r =>
+      obtain ⟨l, q⟩ := r
+      rw [hpf] at h
+      simp only [Decision.load.injEq] at h
+      obtain ⟨hf, hl, hq⟩ := h
+      subst hl; subst hq
+      have hff := full_fit_places_all commonOf np dp spread _ l q hpf
+      refine ⟨fun _ => hf.symm, fun _ => hff.2.2.2.2.2, fun m hm => hmemInv m (hff.2.2.1 m hm)⟩
+    | none =>
+      rw [hpf] at h
+      simp only [Decision.load.injEq] at h
+      obtain ⟨hf, hl, _⟩ := h
+      refine ⟨fun hne => absurd hnil hne, ?_, ?_⟩
+      · intro ht; rw [← hf] at ht; cases ht
+      intro m hm
+      rw [← hl] at hm
+      rcases pickPartial_is_group (commonOf (if np ≤ 0 then 1 else np.toNat)) (inv.map (·.f)) with he | ⟨g, hg, he⟩
+      · rw [he] at hm; exact hmemInv m hm
+      · rw [he] at hm; exact hmemInv m (byLibrary_mem _ g hg m hm)
+  · have hne : runners ≠ [] := fun hn => hemp (by simp [hn])
+    simp only [hemp, Bool.false_eq_true, ↓reduceIte] at h
+    cases hpf : pickFull commonOf np dp spread ((adjInv inv runners).map (·.f)) with
+    | none =>
+      rw [hpf] at h
+      simp only at h
+      split at h <;> cases h
+    | some r =>
+      obtain ⟨l, q⟩ := r
+      rw [hpf] at h
+      simp only [Decision.load.injEq] at h
+      obtain ⟨hf, hl, hq⟩ := h
+      subst hl; subst hq
+      have hff := full_fit_places_all commonOf np dp spread _ l q hpf
+      refine ⟨fun _ => hf.symm, fun _ => hff.2.2.2.2.2, ?_⟩
+      intro m hm
+      obtain ⟨a, ha, rfl⟩ := List.mem_map.mp (hff.2.2.1 m hm)
+      obtain ⟨g, hg, fr, rfl, hle, htot⟩ := adjInv_mem inv runners hne a ha
+      obtain ⟨h1, h2, h3, h4, h5, _, _⟩ := withFree_fields g fr
+      refine ⟨g, (filterLoading_sublist runners inv).subset hg, h1, h2, h3, h4, by rw [h5]; exact hle,
+        fun _ => ⟨hg, fun hp => by rw [h5]; exact htot hp⟩⟩
+
+/-- **What is planned for the new model fits into what the GPU reported, and — together with what
+    was predicted for the loaded models — into the GPU's total memory.**  For a load decision and the
+    estimate `NewLlamaServer` computes for it (under the no-wrap guard): the size `a` planned on the
+    `i`-th GPU of the list is 0, or `a + overhead ≤` the free memory that GPU **reported** in the
+    inventory; and with other models loaded, `a + overhead + predicted ≤ total` whenever the summed
+    prediction is within the total.  No correspondence hypothesis: the GPU is found in the inventory. -/
+theorem load_alloc_within_reported (commonOf : Nat → Inp) (np : Int) (dp : Nat) (spread : Bool)
+    (inv : List IGpu) (runners : List LRunner) (full : Bool) (L : List FGpu) (p : Nat)
+    (h : loadDecision commonOf np dp spread inv runners = .load full L p)
+    (hnw : NoWrap (loadInp commonOf L p)) (i : Nat) (m : FGpu) (a : Nat)
+    (hm : L[i]? = some m) (ha : (estimate (loadInp commonOf L p)).sizes[i]? = some a) :
+    ∃ g ∈ inv, m.idk = g.f.idk ∧ m.key = g.f.key ∧
+      (a = 0 ∨ a + (commonOf p).overhead ≤ g.f.gpu.free) ∧
+      (runners ≠ [] → loadPred inv runners g ≤ g.total →
+        a = 0 ∨ a + (commonOf p).overhead + loadPred inv runners g ≤ g.total) := by
+  obtain ⟨_, _, hmem⟩ := load_sound commonOf np dp spread inv runners full L p h
+  obtain ⟨g, hg, hk, hid, _, _, hfree, hrest⟩ := hmem m (List.mem_of_getElem? hm)
+  have hgi : (loadInp commonOf L p).gpus[i]? = some m.gpu := by
+    simp [loadInp, List.getElem?_map, hm]
+  have hal := (alloc_le_free_partial (loadInp commonOf L p) hnw i m.gpu a hgi ha).1
+  have hov : (loadInp commonOf L p).overhead = (commonOf p).overhead := rfl
+  rw [hov] at hal
+  refine ⟨g, hg, hid, hk, ?_, ?_⟩
+  · rcases hal with h0 | h1
+    · exact Or.inl h0
+    · exact Or.inr (by omega)
+  · intro hne hp
+    have := (hrest hne).2 hp
+    rcases hal with h0 | h1
+    · exact Or.inl h0
+    · exact Or.inr (by omega)
+
+/-- **A model is never placed on a GPU on which another model is still loading** (unique GPU IDs in
+    the inventory; other models loaded) -/
+theorem load_not_on_loading_gpu (commonOf : Nat → Inp) (np : Int) (dp : Nat) (spread : Bool)
+    (inv : List IGpu) (runners : List LRunner) (full : Bool) (L : List FGpu) (p : Nat)
+    (h : loadDecision commonOf np dp spread inv runners = .load full L p)
+    (hids : (idsOf inv).Nodup) (r : LRunner) (hr : r ∈ runners) (hld : r.loading = true)
+    (id : Nat) (hid : id ∈ r.ids) : ∀ m ∈ L, m.idk ≠ id := by
+  intro m hm
+  have hne : runners ≠ [] := List.ne_nil_of_mem hr
+  obtain ⟨_, _, hmem⟩ := load_sound commonOf np dp spread inv runners full L p h
+  obtain ⟨g, _, _, hidk, _, _, _, hrest⟩ := hmem m hm
+  rw [hidk]
+  exact filterLoading_gone runners inv hids r hr hld id hid g (hrest hne).1
+
+/-- `processPending` forces `numParallel = 1` for embedding models and for the mllama family -/
+theorem effParallel_forced (np : Int) (mllama embed : Bool) (h : mllama = true ∨ embed = true) :
+    effParallel np mllama embed = 1 := by
+  unfold effParallel
+  rcases h with h | h
+  · subst h
+    by_cases he : embed = true
+    · simp [he]
+    · by_cases hn : np = 1
+      · simp [he, hn]
+      · simp [he, hn]
+  · simp [h]
+
+
 /-! ### witnesses and non-vacuity -/
 
 /-- a one-block model on one GPU with 100 bytes free; `overhead` is the parameter -/
@@ -564,5 +745,77 @@ def ex2 : Inp :=
 example : NoWrap ex2 ∧ (estimate ex2).layers = 4 ∧ (estimate ex2).split = some [2, 2] ∧
     (estimate ex2).sizes = [107, 75] ∧ (estimate ex2).vram = 182 ∧ (estimate ex2).total = 182 ∧
     predictFit ex2 [(.other, ex2.gpus)] = (true, 182) := by decide
+
+
+
+/-- `ex2` in the variant /repo implements (fix C16-W1 applied) -/
+def ex2f : Inp := { ex2 with ovSafe := true }
+
+/-- same model, second GPU with 80 B free: it is admitted, takes one layer and then drops out of the
+    round-robin (uneven split) -/
+def ex3 : Inp := { ex2f with gpus := [⟨400, 10⟩, ⟨80, 5⟩] }
+
+/-- second GPU with 60 B free: not admitted at all (size 0, no layers) -/
+def ex5 : Inp := { ex2f with gpus := [⟨400, 10⟩, ⟨60, 5⟩] }
+
+/-- non-vacuity in the tree's variant: the guard holds, layers are spread; a GPU dropping out mid-loop;
+    a GPU that is not admitted (the `a = 0` disjunct of `alloc_le_free_partial`) -/
+example : NoWrap ex2f ∧ (estimate ex2f).sizes = [107, 75] ∧ (estimate ex2f).split = some [2, 2] ∧
+    NoWrap ex3 ∧ (estimate ex3).sizes = [120, 62] ∧ (estimate ex3).split = some [3, 1] ∧ (estimate ex3).layers = 4 ∧
+    NoWrap ex5 ∧ (estimate ex5).sizes = [144, 0] ∧ (estimate ex5).split = some [4, 0] := by decide
+
+/-- **Witness of finding N1.**  `num_gpu = 1` on the 4-layer model `ex2f`: `PredictServerFit` answers
+    "fits" (VRAM 101 B) although 1 of 4 layers is placed and 70 B of the requirement stay outside the
+    GPUs (`TotalSize 171 > VRAMSize 101`).  The guard of `fit_only_if_every_layer_placed_partial`
+    excludes exactly this class (`0 ≤ num_gpu < blocks+1`); `num_gpu = 4` and auto place all 4. -/
+theorem N1_fit_with_partial_offload :
+    predictFit { ex2f with numGPU := 1 } [(.other, ex2f.gpus)] = (true, 101) ∧
+    (estimate { ex2f with numGPU := 1 }).layers = 1 ∧ ex2f.blocks.length + 1 = 4 ∧
+    (estimate { ex2f with numGPU := 1 }).total = 171 ∧
+    predictFit { ex2f with numGPU := 4 } [(.other, ex2f.gpus)] = (true, 182) ∧
+    (estimate { ex2f with numGPU := 4 }).layers = 4 := by decide
+
+/-- two GPUs (500 / 400 B total, 400 / 150 B reported free) -/
+def exInv : List IGpu :=
+  [⟨⟨0, 0, .other, ⟨400, 10⟩⟩, 0, 500⟩, ⟨⟨0, 1, .other, ⟨150, 5⟩⟩, 1, 400⟩]
+
+/-- the list the load path settles on for `exInv` with a runner predicted to use 200 B of GPU 0,
+    `OLLAMA_SCHED_SPREAD` set: GPU 0 with its free figure lowered to 300, then GPU 1 -/
+def exL : List FGpu := [⟨0, 0, .other, ⟨300, 10⟩⟩, ⟨0, 1, .other, ⟨150, 5⟩⟩]
+
+/-- non-vacuity of the load-path theorems: first model (auto parallel: 4 fits on GPU 0); a loaded
+    runner lowers GPU 0 to 300 and, with spread, both GPUs are used; the same runner still loading
+    while another one fills GPU 1: requeue; predictions that leave too little: evict -/
+example :
+    loadDecision (fun _ => ex2f) 0 4 false exInv [] = .load true [⟨0, 0, .other, ⟨400, 10⟩⟩] 4 ∧
+    loadDecision (fun _ => ex2f) 1 4 true exInv [⟨false, [0], [200]⟩] = .load true exL 1 ∧
+    loadPred exInv [⟨false, [0], [200]⟩] ⟨⟨0, 0, .other, ⟨400, 10⟩⟩, 0, 500⟩ = 200 ∧
+    NoWrap (loadInp (fun _ => ex2f) exL 1) ∧ (estimate (loadInp (fun _ => ex2f) exL 1)).sizes = [107, 75] ∧
+    loadDecision (fun _ => ex2f) 1 4 false exInv [⟨true, [0], [200]⟩, ⟨false, [1], [300]⟩] = .delay ∧
+    loadDecision (fun _ => ex2f) 1 4 false exInv [⟨false, [0, 1], [450, 350]⟩] = .evict ∧
+    effParallel 4 true false = 1 ∧ effParallel 0 false false = 0 := by decide
+
+/-- `load_alloc_within_reported` instantiated on that decision: 107 B planned on GPU 0 — within the
+    400 B it reported and, with the 200 B predicted for the loaded model, within its 500 B total -/
+example : ∃ g ∈ exInv, g.f.idk = 0 ∧ (107 + ex2f.overhead ≤ g.f.gpu.free) ∧
+    (107 + ex2f.overhead + loadPred exInv [⟨false, [0], [200]⟩] g ≤ g.total) := by
+  have hd : loadDecision (fun _ => ex2f) 1 4 true exInv [⟨false, [0], [200]⟩] = .load true exL 1 := by decide
+  have hnw : NoWrap (loadInp (fun _ => ex2f) exL 1) := by decide
+  obtain ⟨g, hg, hid, _, h1, h2⟩ := load_alloc_within_reported (fun _ => ex2f) 1 4 true exInv
+    [⟨false, [0], [200]⟩] true exL 1 hd hnw 0 ⟨0, 0, .other, ⟨300, 10⟩⟩ 107 (by decide) (by decide)
+  have hg0 : g = ⟨⟨0, 0, .other, ⟨400, 10⟩⟩, 0, 500⟩ := by
+    simp only [exInv, List.mem_cons, List.not_mem_nil, or_false] at hg
+    rcases hg with rfl | rfl
+    · rfl
+    · simp at hid
+  subst hg0
+  have hp : loadPred exInv [⟨false, [0], [200]⟩] ⟨⟨0, 0, .other, ⟨400, 10⟩⟩, 0, 500⟩ ≤ 500 := by decide
+  refine ⟨_, hg, rfl, ?_, ?_⟩
+  · rcases h1 with h | h
+    · omega
+    · exact h
+  · rcases h2 (by simp) hp with h | h
+    · omega
+    · exact h
 
 end OllamaVerif.C16
